@@ -454,20 +454,4 @@ theorem applyOps_frame (spec now : Val) (wi : Bool) (whole : Fields)
       · rw [replaceWhole_dollar whole _ hw] at h; cases h
       · cases h
 
-theorem applyUpdate_frame (spec now : Val) (wasInsert : Bool) (u : Fields) (fs : Fields) (d' : Val)
-    (hu : u.all (fun kv => kv.1.startsWith "$") = true) (hne : u ≠ [])
-    (h : applyUpdate spec (.doc u) now wasInsert (.doc fs) = .ok d') :
-    ∃ fs', d' = .doc fs' ∧ ∀ k, k ∉ addressed u → dget k fs' = dget k fs := by
-  have hw : u.any (fun kv => kv.1.startsWith "$") = true := by
-    cases u with
-    | nil => exact absurd rfl hne
-    | cons kv r =>
-      simp only [List.all_cons, Bool.and_eq_true] at hu
-      simp [hu.1]
-  cases u with
-  | nil => exact absurd rfl hne
-  | cons kv r =>
-    simp only [applyUpdate] at h
-    exact applyOps_frame spec now wasInsert _ hw _ true fs d' h
-
 end MongoModel.Proofs.C02Lemmas
